@@ -391,6 +391,13 @@ constexpr int SAN_DIV = 1;
 constexpr int SAN_DIV = 1;
 #endif
 int budget(const Ctx& ctx, int q, int t) { return ctx.by_tier(q, t) / SAN_DIV; }
+template<class T>
+base_array<T> with_spare_capacity(const base_array<T>& x, int at_least = 0) {
+    std::vector<T> v;
+    v.reserve(size_t(std::max(x.size() * 3, at_least)) + 8);
+    v.assign(x.begin(), x.end());
+    return base_array<T>(std::move(v));
+}
 long long case_seed(uint64_t base, uint64_t key) { return (long long)(mix(base, key) >> 16); }
 
 }   // namespace
@@ -448,12 +455,16 @@ static void mx_gen(Ctx& ctx) {
 
 // =========================================================================================== stage 1: mismatched lengths
 VK_SUB(mm, "length_mismatch");
-static void mm_check(const Json& c, Out& o) {
-    const int form = c.geti("form"), op = c.geti("op"), lt = c.geti("lt"), rt = c.geti("rt"), n = c.geti("n"), m = c.geti("m"), vcls = c.geti("vcls");
-    if (!(form == F_BIN || form == F_CMP) || op < 0 || op > 3 || !ty_arr(lt) || !ty_arr(rt) || !adm_rt(form, op, lt, rt) || n < 0 || m < 0 || n == m) { o.discard = true; return; }
-    Rng r(c.getu("seed"));
+static void mm_body(int form, int op, int lt, int rt, int n, int m, int vcls, uint64_t seed, Out& o) {
+    Rng r(seed);
     const std::string what = combo_name(form, op, lt, rt);
     Val a = mk(r, lt, n, vcls, true), b = mk(r, rt, m, vcls, true);
+    // With the left operand longer, a library that forgot the check would read past the end of the right one; give the right
+    // operand spare capacity (invisible to the value) so that such a library is reported as a failure instead of killing the shard.
+    if (n > m) {
+        if (rt == T_AR) b = Val(std::in_place_type<arr_real>, with_spare_capacity(std::get<arr_real>(b), n));
+        else b = Val(std::in_place_type<arr_cmplx>, with_spare_capacity(std::get<arr_cmplx>(b), n));
+    }
     const Val sa = a, sb = b;
     bool threw = false;
     std::string how;
@@ -475,6 +486,12 @@ static void mm_check(const Json& c, Out& o) {
     o.label(std::string("form:") + FORM_NAME[form] + " " + OP_NAME[op]);
     o.label(std::string("types:") + TY_NAME[lt] + "," + TY_NAME[rt]);
     o.label(n == 0 || m == 0 ? "one-empty" : n < m ? "left-shorter" : "left-longer");
+}
+static void mm_check(const Json& c, Out& o) {
+    const int form = c.geti("form"), op = c.geti("op"), lt = c.geti("lt"), rt = c.geti("rt"), n = c.geti("n"), m = c.geti("m"), vcls = c.geti("vcls");
+    if (!(form == F_BIN || form == F_CMP) || op < 0 || op > 3 || !ty_arr(lt) || !ty_arr(rt) || !adm_rt(form, op, lt, rt) || n < 0 || m < 0 || n == m) { o.discard = true; return; }
+    const uint64_t seed = c.getu("seed");
+    mm_body(form, op, lt, rt, n, m, vcls, seed, o);
 }
 static void mm_gen(Ctx& ctx) {
     const auto combos = array_array_combos();
@@ -520,13 +537,6 @@ bool check_concat(const base_array<T>& out, const std::vector<const base_array<T
         for (int i = 0; i < parts[pi]->size(); ++i, ++k)
             if (!elems_equal(out[k], (*parts[pi])[i])) { o.fail("concat-value:" + what, fmt("%s: element %d differs from element %d of argument %zu", what.c_str(), k, i, pi + 1)); return false; }
     return true;
-}
-template<class T>
-base_array<T> with_spare_capacity(const base_array<T>& x) {
-    std::vector<T> v;
-    v.reserve(size_t(x.size()) * 3 + 8);
-    v.assign(x.begin(), x.end());
-    return base_array<T>(std::move(v));
 }
 template<class T>
 void alias_concat(int kind, int nargs, const base_array<T>& src, const std::string& tname, Out& o) {
